@@ -14,6 +14,12 @@ from . import gen
 
 def gen_c14(rng, profile):
     kn = gen.gen_knobs(rng, profile)
+    if profile.get("batch") in ("abort_enum", "threads", "abort") and rng.random() < 0.4:
+        # focus: tag registries and on-demand variant compilation, the state
+        # with the narrowest windows
+        kn.update({"discr_ann": True, "deep_variants": True, "nofield": rng.random() < 0.2,
+                   "p_plain": rng.choice([0.3, 0.6]), "bad_inputs": False,
+                   "subclass_values": False, "sub_in_base": False})
     if profile.get("batch") == "abort":
         kn["aborts"] = True
         kn["threads"] = False
@@ -24,13 +30,24 @@ def gen_c14(rng, profile):
         kn["aborts"] = False
         ops = gen.gen_history(rng, spec, kn, n_ops=rng.randint(1, 3))
         targets = [i for i, o in enumerate(ops) if o["k"] in ("call", "codec")]
+        decs = [i for i in targets if "inp" in ops[i]]
+        if kn.get("deep_variants") and decs:
+            from . import family as F
+            fam_ = F.Fam(spec)
+            disc = [i for i in decs if ops[i]["k"] == "call" and (
+                fam_.own_cfg(ops[i]["cls"]).get("discriminator") or any(
+                    t[0] == "ann" for f in fam_.all_fields(ops[i]["cls"])
+                    for t in gen._types_in(f["t"])))]
+            targets = disc or decs
         if targets:
             # the first calls are where compilation happens
             target = targets[0] if rng.random() < 0.7 else rng.choice(targets)
             stride = profile.get("stride", 7)
+            # the interrupted call is retried unchanged right afterwards
+            ops.insert(target + 1, dict(ops[target]))
             return {"prop": "C14", "spec": spec, "ops": ops,
                     "opts": {"knobs": kn, "enum": {"target": target, "stride": stride,
-                                                   "max_execs": profile.get("enum_max_execs", 150),
+                                                   "max_execs": profile.get("enum_max_execs", 60),
                                                    "offset": rng.randint(0, 10 ** 6)}}}
     else:
         ops = gen.gen_history(rng, spec, kn)
@@ -158,6 +175,24 @@ def execute_search(case):
     nsteps = ex0.op_steps.get(target, 0)
     execs = 1
     total = ex0
+    # pass 1: every generated-code line of the target op (these are the points
+    # between two statements of generated code — where registry / cache / stub
+    # updates are half done), exhaustively
+    ngen = ex0.op_gen_steps.get(target, 0)
+    total.stats["enum_gen_lines"] = total.stats.get("enum_gen_lines", 0) + min(ngen, 120)
+    for k in range(1, min(ngen, 120) + 1):
+        c = dict(probe)
+        ops = [dict(o) for o in case["ops"]]
+        ops[target]["abort_gen"] = k
+        c["ops"] = ops
+        ex = execute(c, ref_cache=ex0.ref_cache)
+        execs += 1
+        merge_stats(total.stats, ex.stats)
+        total.digest = (total.digest * 1000003 + ex.digest) % ((1 << 61) - 1)
+        if ex.violation is not None:
+            ex.stats = total.stats
+            return ex, c, execs
+    # pass 2: every stride-th traced line (builder code included)
     stride = max(stride, nsteps // enum.get("max_execs", 150))
     total.stats["enum_stride_max"] = stride
     for k in range(1 + enum.get("offset", 0) % stride, nsteps + 1, stride):
